@@ -165,6 +165,13 @@ class HistSat(Hist):
         chosen = list(range(k)) if sel is None else sel
         out_labels = [net.outputs[i] for i in chosen]
         self.judge_cnf(net, clauses, out_labels, 'tseytin')
+        # the caller owns the returned Cnf and goes on using it (e.g. blocking clauses of an all-SAT loop)
+        try:
+            cnf.add_clause([1])
+            cnf.add_clause([-1])
+            self.res.stats.probes.bump('tseytin:returned-cnf-edited-by-caller')
+        except Exception:
+            pass
         self.settle([s], with_copy=False)
 
     def judge_cnf(self, net: Net, clauses, out_labels, what):
@@ -319,10 +326,24 @@ class HistSat(Hist):
         if left is None:
             return
         ln = left.net
+        left_real = left.real
+        if rng.random() < 0.12 and ln.gates:
+            # many outputs (the wide OR at the end of the miter): a private copy of the left circuit with 9..20 outputs
+            labels = list(ln.gates)
+            ln = ln.copy()
+            ln.blocks = {}
+            ln.outputs = [rng.choice(labels) for _ in range(rng.randint(9, 20))]
+            try:
+                left_real = observe.build_real(self.Circuit, self.GT, ln)
+            except Exception:
+                return
+            self.res.stats.probes.bump('miter:more-than-eight-outputs')
         n, k = len(ln.inputs), len(ln.outputs)
         flavour = weighted_choice(rng, [('random', 4), ('rewrite', 3), ('same', 1), ('member', 3), ('mismatch', 2), ('one-gate-off', 3),
                                         ('permuted-labels', 3)])
         right_slot = None
+        if left_real is not left.real and flavour in ('member', 'same'):
+            flavour = 'one-gate-off'
         if flavour == 'member':
             cands = [s for s in self.pop if s is not left and len(s.net.inputs) == n and len(s.net.outputs) == k and s.net.is_acyclic()]
             if cands:
@@ -390,7 +411,7 @@ class HistSat(Hist):
         desc = f'build_miter(#{left.sid}, {"#%d" % right_slot.sid if right_slot else flavour}, {kw})'
         self.ev['call'] = desc
         try:
-            miter = S.build_miter(left.real, right_real, **kw)
+            miter = S.build_miter(left_real, right_real, **kw)
         except Exception as e:  # noqa
             nm = exc_name(e)
             if not same_shape:
